@@ -137,6 +137,15 @@ func suiteResource(r *Rng, n int, thorough bool, o *Out) {
 			op := lst("res", "set", hx(k), sxVal(v))
 			ps, _ := guard(func() { soft.Set(k, cloneVal(v)) })
 			pw, _ := guard(func() { wr.Set(k, cloneVal(v)) })
+			if r.chance(1, 6) {
+				// a copy of each is taken and marshaled with all relationship data (which
+				// sorts the COPY's to-many IDs in place): what the originals read is what
+				// was last set on them
+				rd := map[string][]string{"t": sortedKeys(typ.Rels)}
+				guard(func() { _ = jsonapi.MarshalResource(soft.Copy(), "", typ.Fields(), rd) })
+				guard(func() { _ = jsonapi.MarshalResource(wr.Copy(), "", typ.Fields(), rd) })
+				o.stat("set.then-copy-marshaled")
+			}
 			pv := verdict()
 			if ps || pw {
 				pv = "FAIL:Set panicked"
